@@ -183,6 +183,7 @@ func renderPgn(games []bookGame, rng *Rng) string {
 		long := len(g.moves) > 100
 		verbose := !long && rng.Chance(12)                              // long annotations and no line wrapping: one physical line of several thousand bytes
 		clk := !verbose && (rng.Chance(25) || (long && rng.Chance(50))) // an export with a clock comment after every move: wrapped lines then often start with '[' and end with ']'
+		pendingClose := false
 		line := sanLine(g, func(i int) string {
 			if clk {
 				return fmt.Sprintf("{ [%%clk 0:%02d:%02d] } ", 2+i%3, 59-i%60)
@@ -190,7 +191,11 @@ func renderPgn(games []bookGame, rng *Rng) string {
 			if verbose {
 				return "{ " + strings.Repeat("the position is about equal and both sides keep manoeuvring ", 1+rng.Intn(4)) + fmt.Sprintf("[%%eval 0.%02d] } ", i%100)
 			}
-			switch rng.Intn(12) {
+			if pendingClose && rng.Chance(50) { // closes the parenthesis an earlier comment opened
+				pendingClose = false
+				return "{as the main line) here} "
+			}
+			switch rng.Intn(16) {
 			case 0:
 				return "{a comment} "
 			case 1:
@@ -199,6 +204,15 @@ func renderPgn(games []bookGame, rng *Rng) string {
 				return "(1. d4 d5 (1... Nf6 2. c4) 2. c4) "
 			case 3:
 				return "{ multi word comment with 1. e4 inside } "
+			case 4: // inside a brace comment parentheses are plain text: balanced, ...
+				return "{ a comment (with a remark in parentheses) } "
+			case 5: // ... an enumeration label, ...
+				return "{a) the main line} "
+			case 6: // ... a label inside a variation, ...
+				return "(1. d4 {b) the closed games} d5 2. c4) "
+			case 7: // ... or opened in one comment and closed in a later one
+				pendingClose = true
+				return "{the old move (also known } "
 			}
 			return ""
 		})
